@@ -30,6 +30,19 @@ static cbor_item_t* mk_int(bool neg, unsigned w, unsigned vi) {
   }
   return chk(it);
 }
+/* the same integers through the new / set / mark path (and a value overwritten once) */
+static cbor_item_t* mk_int_setters(bool neg, unsigned w, unsigned vi) {
+  cbor_item_t* it = w == 0 ? cbor_new_int8() : w == 1 ? cbor_new_int16() : w == 2 ? cbor_new_int32() : cbor_new_int64();
+  if (!chk(it)) return NULL;
+  switch (w) {
+    case 0: cbor_set_uint8(it, 0x5a); cbor_set_uint8(it, (uint8_t)V8[vi]); break;
+    case 1: cbor_set_uint16(it, 0x5a5a); cbor_set_uint16(it, (uint16_t)V16[vi]); break;
+    case 2: cbor_set_uint32(it, 0x5a5a5a5a); cbor_set_uint32(it, (uint32_t)V32[vi]); break;
+    default: cbor_set_uint64(it, 0x5a5a5a5a5a5a5a5aull); cbor_set_uint64(it, V64[vi]);
+  }
+  if (neg) cbor_mark_negint(it); else { cbor_mark_negint(it); cbor_mark_uint(it); }
+  return it;
+}
 static const unsigned char BYTES24[65600] = "abcdefghijklmnopqrstuvwx";
 static cbor_item_t* mk_bytes(unsigned li) {
   static const size_t L[] = {0, 1, 23, 24, 255, 256, 65535, 65536};
@@ -79,12 +92,26 @@ static cbor_item_t* mk_float(unsigned w, unsigned vi) {
   static const double D[] = {0.0, 1.1, -4.1, 1.0e+300, 4.9e-324};
   if (vi == 5) return chk(w == 0 ? cbor_build_float2(NAN) : w == 1 ? cbor_build_float4(-NAN) : cbor_build_float8(NAN));
   if (vi == 6) return chk(w == 0 ? cbor_build_float2(INFINITY) : w == 1 ? cbor_build_float4(-INFINITY) : cbor_build_float8(-INFINITY));
+  if (vi == 2) { /* new + set path */
+    cbor_item_t* it = w == 0 ? cbor_new_float2() : w == 1 ? cbor_new_float4() : cbor_new_float8();
+    if (!chk(it)) return NULL;
+    if (w == 0) { cbor_set_float2(it, 99.0f); cbor_set_float2(it, H[vi]); }
+    else if (w == 1) { cbor_set_float4(it, 99.0f); cbor_set_float4(it, S[vi]); }
+    else { cbor_set_float8(it, 99.0); cbor_set_float8(it, D[vi]); }
+    return it;
+  }
   return chk(w == 0 ? cbor_build_float2(H[vi]) : w == 1 ? cbor_build_float4(S[vi]) : cbor_build_float8(D[vi]));
 }
 static cbor_item_t* mk_simple(unsigned i) {
   switch (i) {
     case 0: return chk(cbor_build_bool(false));
-    case 1: return chk(cbor_build_bool(true));
+    case 1: { /* true via new_ctrl + set_ctrl + set_bool */
+      cbor_item_t* it = cbor_new_ctrl();
+      if (!chk(it)) return NULL;
+      cbor_set_ctrl(it, 20);
+      cbor_set_bool(it, true);
+      return it;
+    }
     case 2: return chk(cbor_new_null());
     case 3: return chk(cbor_new_undef());
     /* unassigned simple values: constructible, serializable (C07, C11, C18 speak of every item), not decodable (outside C03's domain) */
@@ -122,8 +149,8 @@ static cbor_item_t* gen_leaf(int g) {
     }
   }
   switch (pick(8)) {
-    case 0: { unsigned w = pick(4); return mk_int(false, w, pick(w == 1 ? 5 : 4)); }
-    case 1: { unsigned w = pick(4); return mk_int(true, w, pick(w == 1 ? 5 : 4)); }
+    case 0: { unsigned w = pick(4), vi = pick(w == 1 ? 5 : 4); return pick(2) ? mk_int_setters(false, w, vi) : mk_int(false, w, vi); }
+    case 1: { unsigned w = pick(4), vi = pick(w == 1 ? 5 : 4); return pick(2) ? mk_int_setters(true, w, vi) : mk_int(true, w, vi); }
     case 2: return mk_bytes(pick(8));
     case 3: return mk_text(pick(10));
     case 4: return mk_indef_string(false, pick(3));
